@@ -53,7 +53,7 @@ def gen_case(rng: random.Random, tier: str):
             mode = "single"
         else:
             k = rng.randint(1, min(4, n - i))
-            mode = "batch"
+            mode = "batch" if rng.random() < 0.8 else "batch_exc"  # batch_exc: the caller's code raises inside the update block
         uses = [rng.choice(["parse", "default", "dumps", "len", "eq", "parse_fail", "array_of"]) for _ in range(rng.randint(0, 3))]
         steps.append({"n": k, "mode": mode, "uses": uses, "extra_commit": rng.random() < 0.2})
         i += k
@@ -280,9 +280,15 @@ def run_case(case, stats):
                     st.add_field(name, _retarget(csC, t, st), bits=bits)
                     commits += 1
             else:
-                with st.start_update():
-                    for name, t, bits in chunk:
-                        st.add_field(name, _retarget(csC, t, st), bits=bits)
+                try:
+                    with st.start_update():
+                        for name, t, bits in chunk:
+                            st.add_field(name, _retarget(csC, t, st), bits=bits)
+                        if step["mode"] == "batch_exc":
+                            stats.count("probe.exception_leaves_update_block")
+                            raise _CallerError
+                except _CallerError:
+                    pass
                 commits += 1
             if step["extra_commit"]:
                 st.commit()
@@ -346,9 +352,14 @@ def run_case(case, stats):
                     for (nm_, ty_, b_), o_ in chunk:
                         t_.add_field(nm_, ty_, bits=b_, offset=o_)
                 else:
-                    with t_.start_update():
-                        for (nm_, ty_, b_), o_ in chunk:
-                            t_.add_field(nm_, ty_, bits=b_, offset=o_)
+                    try:
+                        with t_.start_update():
+                            for (nm_, ty_, b_), o_ in chunk:
+                                t_.add_field(nm_, ty_, bits=b_, offset=o_)
+                            if step["mode"] == "batch_exc":
+                                raise _CallerError
+                    except _CallerError:
+                        pass
                 for u in step["uses"]:
                     _use(t_, u, inputs[0] if inputs else b"\x00" * 8)
             return t_
@@ -371,6 +382,10 @@ def run_case(case, stats):
                 raise Violation("offsets", "layout_one_shot_vs_incremental", f"explicit offsets {offs}: " + _diff("_make_struct with Field(offset=)", out[0][1], f"add_field(offset=) history {pattern}", out[1][1]))
             if out[0][2] != out[1][2]:
                 raise Violation("offsets", "behaviour_one_shot_vs_incremental", f"explicit offsets {offs}: " + _bdiff(out[0][2], out[1][2]))
+
+
+class _CallerError(Exception):
+    """Raised by the harness inside an update block: an error in the caller's own code while it extends a structure."""
 
 
 def _retarget(cs, t, st):
